@@ -1,10 +1,58 @@
 """Per-property wording for MANIFEST.json."""
 HOOK_COMMITS = []
 NOT_APPLICABLE = {}
+
+_PBT = "property-based testing with pgregory.net/rapid (sharded, shrunk replay files)"
+
 TEXT = {
+    "C03": dict(
+        technique=_PBT + " + complete enumeration of both word lists + native fuzzing; oracle = independent bit-string BIP-39 codec over pinned official word lists (two-sided accept/reject, round trips)",
+        level="Generated entropies of every size (weighted to leading/trailing zero bytes, all-zero, single bits) and generated/mutated word sequences are judged by an independent bit-string reference in both directions; all 2x2048 word indices are enumerated completely against the pinned lists. Exploration: sampled over 2^128..2^512 entropies, complete only over sizes, indices and error kinds.",
+        note="Trusted: harness/ref/bip39 (self-checked on official vectors), crypto/sha256, the pinned word list files (English independently confirmed by its published digest; Japanese pinned to the commit).",
+    ),
+    "C04": dict(
+        technique=_PBT + " + complete enumeration of padding patterns + native fuzzing; oracle = total BIP-173 reference decoder written from the BIP text (two-sided: accept iff, equal values, re-encode)",
+        level="Every generated string (reference-encoded arbitrary symbol sequences with correct checksum, case variants, hostile edits incl. non-ASCII case-folding traps, random bytes) is decided by a total independent reference decoder and must get the same verdict and values; error offsets must lie inside the input; panics are failures. All (symbol count, last symbol) padding patterns enumerated completely. Exploration, not proof.",
+        note="Trusted: harness/ref/bech32 (self-checked against BIP-173 vectors) as the definition of 'valid Bech32'; strings are byte strings.",
+    ),
+    "C05": dict(
+        technique=_PBT + " + complete sweep of all (prefix length, data length) pairs; oracle = independent BIP-173 reference encoder + Decode round trip",
+        level="Generated (hrp, data) pairs incl. upper/mixed case, bytes outside 33..126 and non-ASCII runes: Encode must equal the reference string exactly when the pair fits and fail otherwise; all 87x57 length pairs x 4 contents enumerated completely on both sides of the 90-character limit.",
+        note="Trusted: harness/ref/bech32.",
+    ),
+    "C07": dict(
+        technique=_PBT + " + complete enumeration of message lengths 0..300; differential oracle = crypto/ed25519 byte for byte",
+        level="Differential testing against the standard library on generated seeds and messages (lengths weighted to every SHA-512 padding regime), plus crypto.Signer and GenerateKey behaviour. Sampled over seeds; complete over message lengths 0..300.",
+        note="Trusted: crypto/ed25519 as the RFC 8032 implementation.",
+    ),
+    "C09": dict(
+        technique=_PBT + " + complete enumeration of the 25 White_Space separators; oracle = own PBKDF2-HMAC-SHA512 and a hand-made NFKD table cross-checked with x/text; metamorphic passphrase equivalence; parser idempotence",
+        level="Seeds for generated valid mnemonics and passphrases (hand-built composed/compatibility/Hangul/kana/mis-ordered pieces whose NFKD is known by construction, plus arbitrary strings) must equal an independent PBKDF2; invalid mnemonics must give no seed; generated renderings with all Unicode white space and compatibility forms must parse to the canonical words. Exploration.",
+        note="Trusted: crypto/hmac+sha512, golang.org/x/text NFKD for arbitrary passphrases (the hand table is independent), harness/ref/bip39 word lists.",
+    ),
     "C10": dict(
-        technique="property-based testing (rapid) + complete enumeration of short strings + native fuzzing; oracle = hand-written decimal recursive-descent reference parser (two-sided accept/reject + values) and print/parse round trip",
+        technique=_PBT + " + complete enumeration of short strings + native fuzzing; oracle = hand-written decimal recursive-descent reference parser (two-sided accept/reject + values) and print/parse round trip",
         level="Generated-input search: grammar-with-noise strings and []uint32 paths judged by an independent reference parser in both directions (accept iff, equal values), all 7381 strings of length <= 4 over the 9 significant characters enumerated completely, coverage-guided fuzzing in the thorough tier. Sampling of an infinite language: establishes no absence beyond the enumerated part.",
         note="Trusted: the hand-written reference parser in harness/c10 as the reading of the property's grammar; rapid's generators; Go's fmt for the reference printer.",
+    ),
+    "C14": dict(
+        technique=_PBT + " + complete enumeration of all 256 bytes, 729 b1t6 groups / tryte pairs and 6561 b1t8 groups; oracle = integer-arithmetic reference codec (two-sided, error kind and decoded count)",
+        level="The per-group behaviour is decided exhaustively (every byte, every possible group); multi-group behaviour (first fault wins, remainder handling, decoded count, re-encoding) on generated sequences against the reference.",
+        note="Trusted: harness/ref/trit (TIP-5 arithmetic, self-checked on TIP-5 examples). Inputs outside {-1,0,1} / 9A-Z are documented as undefined and not generated.",
+    ),
+    "C15": dict(
+        technique=_PBT + " + complete enumeration of every leaf count 0..N; oracle = iterative bottom-up (binary counter) root and RFC 9162 inclusion-proof verification; failing-leaf fault injection",
+        level="Every leaf count 0..600 (quick) / 0..6000 (thorough) plus counts around powers of two up to 2^17 is checked against an independent non-recursive construction and RFC 9162 audit paths; random contents, four hash functions, failing leaves (first error by index), unmodified inputs, equal content via another leaf type.",
+        note="Trusted: the standard-library / x/crypto hash functions; the reference construction and verifier in harness/c15.",
+    ),
+    "C16": dict(
+        technique="exhaustive black-box syndrome enumeration (3 766 036 syndromes measured through the real Encode) + " + _PBT + " + complete weight<=2 enumeration per sampled code word; oracle = Decode must reject",
+        level="The checksum's distance is settled completely at the syndrome level for every error pattern of weight <= 4 in the 89-symbol window (finite, enumerated), using only checksum differences observed through Encode plus checked linearity; the end-to-end half (Decode rejects) is sampled for weights 3-4 and enumerated completely for weights 1-2 on sampled code words.",
+        note="Assumes Decode rejects exactly the non-zero syndromes (checked by C04/C05 and sampled here). Trusted: harness/ref/bech32 for building valid strings.",
+    ),
+    "C19": dict(
+        technique=_PBT + " + complete single-tryte substitution sweep per sampled address + native fuzzing; oracle = BIP-173 reference + (prefix, version, length) table + own migration codec (two-sided)",
+        level="Constructor round trips for all prefixes and address kinds against an independent encoding; generated Bech32 strings with arbitrary version bytes / payload lengths / near-miss prefixes / hostile edits must be accepted exactly when the reference table says so and then re-encode to the lower-cased input; migration strings against an independent b1t6+BLAKE2b decoder incl. all 81x26 substitutions per sampled address.",
+        note="Trusted: harness/ref/bech32, harness/ref/trit, x/crypto/blake2b.",
     ),
 }
